@@ -65,6 +65,17 @@ CLAIMED = {
         technique="Coq proof (well-formedness of union/intersection) + exhaustive small-scope pairs evaluated in Coq by vm_compute",
         note="The multiplicity formula itself is checked per case in Coq (spec_or), not yet proved for all inputs; minimality "
              "('coarsest') is not proved."),
+    "C18": dict(
+        text="Theorems (Props/C18.v): every generator result and every shift/scale/normalize result is a well-formed clamped "
+             "vector (random = for every drawn weight list), non-positive scale refused, and Cox-de Boor functions of every "
+             "degree and index are invariant under increasing affine reparametrisation (N_affine). Exact degree/npts, simple "
+             "interior knots, spacing, limits exactly [0,1], affine image of every knot, preserved multiplicities and basis/curve "
+             "invariance are decided inside Coq on every generated case against the implementation's outputs (Fraction class "
+             "checked); the float clause (limits exactly (0,1) for uniform/random with float knots) is validated by a sweep.",
+        design="7/C18",
+        technique="Coq proof (WF of generators and affine maps; affine invariance by induction on the degree) + correspondence by vm_compute",
+        note="Float clause is a test (sweep over n and random draws), not a theorem. The draw of random() is not reproduced; "
+             "its spacing is read back from the result."),
 }
 
 PENDING_REASON = "check not built yet (framework under construction; see DESIGN.md section 7)"
